@@ -1049,6 +1049,7 @@ THEOREMS = [
     "C08.rect_branches_agree",
     "C08.bbox_contains_rotated_rect",
     "C08.ellipse_branches_agree",
+    "C08.ellipse_branches_agree_full",
     "C08.ellipse_bounds_contain",
     "C08.circle_spec",
     "C08.annulus_spec",
